@@ -1,4 +1,6 @@
 
+val negb : bool -> bool
+
 type nat =
 | O
 | S of nat
@@ -39,6 +41,8 @@ type z =
 module Nat :
  sig
   val leb : nat -> nat -> bool
+
+  val ltb : nat -> nat -> bool
  end
 
 module Pos :
@@ -163,6 +167,8 @@ module Z :
   val modulo : z -> z -> z
  end
 
+val nth : nat -> 'a1 list -> 'a1 -> 'a1
+
 val removelast : 'a1 list -> 'a1 list
 
 val rev : 'a1 list -> 'a1 list
@@ -181,6 +187,14 @@ val skipn : nat -> 'a1 list -> 'a1 list
 
 type byte = n
 
+val nonempty : 'a1 list -> bool
+
+val has_prefix : n list -> n list -> bool
+
+val index_of : n list -> n list -> nat option
+
+val last_index_of : n list -> n list -> nat option
+
 val index_byte : n -> n list -> nat option
 
 val buffer_line_newline : n
@@ -196,6 +210,52 @@ val escape_base_json : (n list * n list) list
 val escape_all_chars : n list
 
 val escape_all_first_code : n
+
+val win_init_last : n
+
+val win_terminator : n
+
+val win_after_terminator : n
+
+val win_interrupt : n
+
+val win_newline : n
+
+val win_move_final : n
+
+val win_digit_lo : n
+
+val win_digit_hi : n
+
+val win_home_prev : n
+
+val win_home_final : n
+
+val win_esc : n
+
+val trzsz_letter_ranges : (n * n) list
+
+val trzsz_letter_singles : n list
+
+val vt100_end_ranges : (n * n) list
+
+val recv_marker_open : n list
+
+val recv_marker_close : n list
+
+val recv_fallback_byte : n
+
+val tmux_status_begin : n list
+
+val tmux_status_begin_skip : n
+
+val tmux_status_mid : n list
+
+val tmux_status_mid_skip : n
+
+val tmux_status_end : n list
+
+val tmux_status_end_skip : n
 
 val nl : byte
 
@@ -322,3 +382,54 @@ val escape_all_pairs : n list -> n -> n list list list
 val builtin_json : bool -> n list list list
 
 val builtin_table : bool -> table
+
+val marker : byte list -> byte list
+
+val marker_cut : byte list -> byte list -> byte list
+
+val strip_tmux : nat -> byte list -> byte list
+
+val strip_tmux_status : byte list -> byte list
+
+val recv_line : byte list -> bool -> pending -> rres
+
+val in_ranges : (n * n) list -> byte -> bool
+
+val is_trzsz_letter : byte -> bool
+
+val is_vt100_end : byte -> bool
+
+type wst = { w_last : byte; w_skip : bool; w_nl : bool; w_dup : bool;
+             w_home : bool; w_prehome : bool }
+
+val w_init : wst
+
+val last_is : byte list -> byte -> bool
+
+val set_last : byte list -> byte -> byte list
+
+val win_byte : wst -> byte list -> byte -> (wst * byte list) option
+
+val win_fold : wst -> byte list -> byte list -> (wst * byte list) option
+
+type wcres =
+| WCLine of byte list * nat * byte list
+| WCIntr of nat * byte list
+| WCMore of wst * byte list
+
+val win_chunk : nat -> wst -> byte list -> nat -> byte list -> wcres
+
+type wres =
+| WDone of byte list * nat * pending
+| WBlocked
+| WInterrupted of nat * pending
+
+val win_read : wst -> byte list -> nat -> pending -> wres
+
+val read_line_windows : nat -> pending -> wres
+
+val recv_line_windows : byte list -> nat -> pending -> wres
+
+val win_run : byte list list -> nat -> pending -> result list
+
+val junk_run : byte list list -> bool -> pending -> result list
